@@ -366,14 +366,52 @@ fn res_name(r: u8) -> String {
     }
 }
 
+/// One file per (name, source) of the catalogue, so that every `Add` / `Batch` operation can also be
+/// issued through `add_template_file(path, Some(name))` / `add_template_files`.
+struct FileStore {
+    dir: std::path::PathBuf,
+}
+
+impl FileStore {
+    fn path(&self, n: usize, s: usize) -> std::path::PathBuf {
+        self.dir.join(format!("n{n}_s{s}.tpl"))
+    }
+    fn missing(&self) -> std::path::PathBuf {
+        self.dir.join("does-not-exist.tpl")
+    }
+    /// Writes the catalogue (idempotent: same bytes every time).
+    fn create(dir: std::path::PathBuf, cfg: &Cfg) -> FileStore {
+        std::fs::create_dir_all(&dir).expect("scratch directory for the file API");
+        let fs = FileStore { dir };
+        for &n in &cfg.names {
+            for (s, src) in cfg.sources[n].iter().enumerate() {
+                let p = fs.path(n, s);
+                if std::fs::read_to_string(&p).ok().as_deref() != Some(src.text.as_str()) {
+                    std::fs::write(&p, &src.text).expect("write catalogue file");
+                }
+            }
+        }
+        let _ = std::fs::remove_file(fs.missing());
+        fs
+    }
+}
+
 fn apply(t: &mut Tera, cfg: &Cfg, op: &Op) -> (u8, String) {
-    let r = engine::guarded(|| match op {
-        Op::Auto(s) => {
+    apply_via(t, cfg, op, None)
+}
+
+fn apply_via(t: &mut Tera, cfg: &Cfg, op: &Op, files: Option<&FileStore>) -> (u8, String) {
+    let r = engine::guarded(|| match (op, files) {
+        (Op::Auto(s), _) => {
             t.autoescape_on(SUFFIX_SETTINGS[*s].1.to_vec());
             Ok(())
         }
-        Op::Add(n, s) => t.add_raw_template(ALL_NAMES[*n], &cfg.sources[*n][*s].text),
-        Op::Batch(_) => t.add_raw_templates(cfg.op_templates(op)),
+        (Op::Add(n, s), None) => t.add_raw_template(ALL_NAMES[*n], &cfg.sources[*n][*s].text),
+        (Op::Batch(_), None) => t.add_raw_templates(cfg.op_templates(op)),
+        (Op::Add(n, s), Some(f)) => t.add_template_file(f.path(*n, *s), Some(ALL_NAMES[*n])),
+        (Op::Batch(es), Some(f)) => {
+            t.add_template_files(es.iter().map(|(n, s)| (f.path(*n, *s), Some(ALL_NAMES[*n]))).collect::<Vec<_>>())
+        }
     });
     match r {
         Ok(Ok(())) => (R_OK, String::new()),
@@ -772,6 +810,9 @@ struct Cx<'a> {
     /// histories shorter than this (counting the call under judgement) are also executed by the
     /// `histories` family: they are judged again but not counted as distinct non-trivial cases
     distinct_from_len: usize,
+    /// Some: the live instance is driven through `add_template_file(s)` (the oracle stays on the
+    /// raw API: a fresh instance has no files)
+    files: Option<FileStore>,
 }
 
 fn root(cx: &Cx) -> Node {
@@ -786,7 +827,7 @@ fn step(cx: &mut Cx, tally: &mut Tally, parent: &Node, opi: usize, hist: &[(u16,
     let cfg = cx.cfg;
     let op = &cfg.ops[opi];
     let mut tera = parent.tera.clone();
-    let (res, panic_msg) = apply(&mut tera, cfg, op);
+    let (res, panic_msg) = apply_via(&mut tera, cfg, op, cx.files.as_ref());
     let obs = observe(&tera, cfg, &cx.probe);
     let st = if res == R_OK { cfg.model(parent.st, op) } else { parent.st };
     if judge {
@@ -812,11 +853,13 @@ fn check_transition(
     let op = &cfg.ops[opi];
     let class = cfg.op_class(op);
     let labels_kind = |i: usize| obs_labels(cfg)[i].1;
+    let api = if cx.files.is_some() { "add_template_file(s) on files holding the sources" } else { "add_raw_template(s)" };
     let case = |extra: Json| {
         let mut h: Vec<(u16, u8)> = hist.to_vec();
         h.push((opi as u16, res));
         json!({
             "fallback_prefixes": cfg.prefixes,
+            "api": api,
             "history": cfg.history_json(&h),
             "set_before_last_call": cfg.state_json(&parent.st),
             "set_after_last_call": cfg.state_json(&st),
@@ -1111,7 +1154,7 @@ fn bfs(cfg: &Cfg, max_depth: usize, distinct_from_len: usize, threads: usize, ta
                 let h = std::thread::Builder::new()
                     .stack_size(16 << 20)
                     .spawn_scoped(s, move || {
-                        let mut cx = Cx { cfg, probe: Probe::new(), oracle: std::mem::replace(oracle, Oracle::new(8)), distinct_from_len };
+                        let mut cx = Cx { cfg, probe: Probe::new(), oracle: std::mem::replace(oracle, Oracle::new(8)), distinct_from_len, files: None };
                         let mut tally = Tally::default();
                         let mut cands: Vec<OkCand> = vec![];
                         let mut local: HashMap<State, u8> = HashMap::new();
@@ -1259,7 +1302,7 @@ fn main() {
     run.assume("history length <= 2 (quick) / <= 3 (thorough) without deduplication; to depth 3 / 5 modulo the canonical state, each state expanded from up to three live representatives (first history, one alternative accepted path, one history ending in a refused call)");
     run.assume("the observation (get_template_names, render, render_block t/u, get_template_variables per catalogue name; get_component_definition, render_str and render_component for X; one context with special characters) is what 'behaves exactly like' means; error messages are not compared, error kinds are");
     run.assume("fresh-instance behaviour is memoised per canonical state inside a worker (a fresh instance has no history); sorted-order and reverse-order one-batch instances are compared whenever an entry is built");
-    run.assume("only add_raw_template(s) and autoescape_on; add_template_file(s) / load_from_glob share finalize_templates but are not driven; default features; delimiters fixed");
+    run.assume("add_raw_template(s), autoescape_on, and (family file-api) add_template_file(s) with an explicit name; load_from_glob / full_reload (feature glob_fs, off by default) are not driven; default features; delimiters fixed");
 
     let cfgs = [Cfg::new(0), Cfg::new(1)];
     let n_ops: Vec<u64> = cfgs.iter().map(|c| c.ops.len() as u64).collect();
@@ -1301,7 +1344,7 @@ fn main() {
             }
             std::process::exit(0);
         }
-        let mut cx = Cx { cfg, probe: Probe::new(), oracle: Oracle::new(64), distinct_from_len: 0 };
+        let mut cx = Cx { cfg, probe: Probe::new(), oracle: Oracle::new(64), distinct_from_len: 0, files: None };
         let mut node = root(&cx);
         let mut hist = vec![];
         let mut tally = Tally::default();
@@ -1397,7 +1440,7 @@ fn main() {
                 }
                 o[c].take().unwrap_or_else(|| Oracle::new(4096))
             });
-            let mut cx = Cx { cfg, probe: Probe::new(), oracle, distinct_from_len: 0 };
+            let mut cx = Cx { cfg, probe: Probe::new(), oracle, distinct_from_len: 0, files: None };
             let mut tally = Tally::default();
             let mut hist: Vec<(u16, u8)> = vec![];
             let mut node = root(&cx);
@@ -1429,6 +1472,117 @@ fn main() {
             ORACLES.with(|o| o.borrow_mut()[c] = Some(cx.oracle));
         },
     );
+
+    // ------------------------------------------------------------------------------ file-api
+    // The same histories issued through add_template_file / add_template_files (their own insert /
+    // undo code in the engine), judged by the same fresh-instance oracle (which stays on the raw
+    // API), plus calls that fail on the file system: a missing file alone, and as the second
+    // element of a batch whose first element had already been inserted.
+    let files_dir = std::env::var("C10_FILES_DIR")
+        .map(std::path::PathBuf::from)
+        .unwrap_or_else(|_| std::env::temp_dir().join(format!("verif-c10-files-{}", std::process::id())));
+    if run.is_supervisor() {
+        // workers inherit the variable; the supervisor writes the files once and removes them afterwards
+        unsafe { std::env::set_var("C10_FILES_DIR", &files_dir) };
+        FileStore::create(files_dir.clone(), &cfgs[1]);
+    }
+    let fdepth = if thorough { 3 } else { 2 };
+    let f_total: u64 = n_ops.iter().map(|n| (1..=fdepth).map(|d| n.pow(d as u32)).sum::<u64>()).sum();
+    run.family(
+        Family::new(
+            "file-api",
+            items,
+            &format!(
+                "ALL histories of length <= {fdepth} with every add issued through add_template_file(path, Some(name)) / add_template_files on files holding the catalogue sources ({f_total} transitions), against the raw-API fresh-instance oracle; after every history prefix of the item: a missing file alone and as second element of a batch (must fail, nothing may change)"
+            ),
+        )
+        .describe(|item| {
+            let (c, first) = decode(item);
+            json!({"fallback_prefixes": cfgs[c].prefixes, "api": "add_template_file(s)",
+                   "history_prefix": first.iter().map(|o| cfgs[c].op_json(&cfgs[c].ops[*o])).collect::<Vec<_>>(),
+                   "note": "every continuation of this prefix up to the depth bound is executed inside the item"})
+        })
+        .crash_signature(|_, kind| format!("{kind}:file-api"))
+        .timeout(120.0),
+        |item, acc: &mut Acc| {
+            let (c, first) = decode(item);
+            let cfg = &cfgs[c];
+            let files = FileStore::create(files_dir.clone(), &cfgs[1]);
+            let mut cx = Cx { cfg, probe: Probe::new(), oracle: Oracle::new(1024), distinct_from_len: 0, files: Some(files) };
+            let mut tally = Tally::default();
+            let mut hist: Vec<(u16, u8)> = vec![];
+            let mut node = root(&cx);
+            let mut prefix_nodes: Vec<(Vec<(u16, u8)>, Tera, Rc<Obs>)> = vec![];
+            if first.iter().all(|o| *o == 0) {
+                prefix_nodes.push((vec![], node.tera.clone(), node.obs.clone()));
+            }
+            for (k, opi) in first.iter().enumerate() {
+                let judge = first[k + 1..].iter().all(|o| *o == 0);
+                let (child, res) = step(&mut cx, &mut tally, &node, *opi, &hist, judge);
+                hist.push((*opi as u16, res));
+                node = child;
+                if judge {
+                    prefix_nodes.push((hist.clone(), node.tera.clone(), node.obs.clone()));
+                }
+            }
+            dfs(&mut cx, &mut tally, &node, &mut hist, 1);
+            // calls that fail on the file system
+            let f = cx.files.as_ref().unwrap();
+            for (h, tera, obs) in &prefix_nodes {
+                for &n in &cfg.names {
+                    let mut calls: Vec<(String, Vec<(std::path::PathBuf, &str)>)> =
+                        vec![(format!("add_template_file(<missing>, {})", ALL_NAMES[n]), vec![(f.missing(), ALL_NAMES[n])])];
+                    for &m in &cfg.names {
+                        // element one: a valid plain / base source (index 0 / 1) that gets inserted first
+                        for s in 0..2 {
+                            calls.push((
+                                format!("add_template_files([{} := {}, {} := <missing>])", ALL_NAMES[m], cfg.sources[m][s].label, ALL_NAMES[n]),
+                                vec![(f.path(m, s), ALL_NAMES[m]), (f.missing(), ALL_NAMES[n])],
+                            ));
+                        }
+                    }
+                    for (label, batch) in calls {
+                        let mut t = tera.clone();
+                        let r = engine::guarded(|| t.add_template_files(batch.iter().map(|(p, n)| (p.clone(), Some(*n))).collect::<Vec<_>>()));
+                        let after = observe(&t, cfg, &cx.probe);
+                        let case = || json!({"fallback_prefixes": cfg.prefixes, "history": cfg.history_json(h), "then": label, "render_context": {"v": SPECIAL}});
+                        match r {
+                            Ok(Err(_)) => {
+                                if let Some(i) = first_diff(obs, &after) {
+                                    tally.violation(
+                                        format!("file-api:missing-file-not-rolled-back:{}", obs_labels(cfg)[i].1),
+                                        format!("{label} failed but the instance changed: {}", obs_labels(cfg)[i].0),
+                                        || { let mut j = case(); j.as_object_mut().unwrap().insert("difference".into(), diff_json(cfg, obs, &after)); j },
+                                    );
+                                }
+                                tally.case(!h.is_empty() || batch.len() > 1, "file-api:missing-file:Err");
+                            }
+                            Ok(Ok(())) => tally.violation("file-api:missing-file-accepted".into(), format!("{label} returned Ok"), case),
+                            Err(p) => tally.violation("file-api:panic".into(), format!("{label} panicked: {p}"), case),
+                        }
+                    }
+                }
+            }
+            for v in &mut tally.violations {
+                if !v.0.starts_with("file-api:") {
+                    v.0 = format!("file-api:{}", v.0);
+                }
+            }
+            // keep the raw-API vacuity counters of `histories` apart from this family's
+            let t = tally.counters[C_TRANSITIONS];
+            let (ok, err) = (tally.counters[C_OK], tally.counters[C_ERR]);
+            tally.counters = [0; N_COUNTERS];
+            tally.extra.insert("file_api_transitions".into(), t);
+            tally.extra.insert("file_api_ok".into(), ok);
+            tally.extra.insert("file_api_err".into(), err);
+            tally.flush(acc);
+        },
+    );
+    if run.is_supervisor() {
+        let _ = std::fs::remove_dir_all(&files_dir);
+        let (ok, err) = (run.counter("file_api_ok"), run.counter("file_api_err"));
+        run.guard("file-api-both-outcomes", ok > 1000 && err > 1000, format!("ok={ok} err={err}"));
+    }
 
     // ------------------------------------------------------------------------------ dedup-bfs
     let bfs_depth = std::env::var("C10_BFS_DEPTH")
